@@ -100,7 +100,32 @@ def run_extractor(specs, tags, view, out_rs, out_map):
     return json.load(open(out_map))
 
 
-def assemble(unit_name, specs, tags, view, props_files, workdir, prelude_files=None, extra_prelude=""):
+def gen_const_distinct(ex_text):
+    """proof text (checked by Verus, not trusted): every pair of extracted byte-string constants
+    differs.  The driver only supplies the index at which two literals differ as a hint; for two
+    equal literals no hint exists and the `ensures` fails."""
+    consts = re.findall(r"pub open spec fn (\w+)_spec\(\) -> Seq<u8> \{ seq!\[(.*?)\] \}", ex_text)
+    vals = []
+    for name, body in consts:
+        b = [int(x.strip().removesuffix("u8")) for x in body.split(",") if x.strip()]
+        vals.append((name, b))
+    ens, hints = [], []
+    for i in range(len(vals)):
+        for j in range(i + 1, len(vals)):
+            (a, ab), (b, bb) = vals[i], vals[j]
+            ens.append("        %s_spec() != %s_spec()," % (a, b))
+            if len(ab) != len(bb):
+                hints.append("    assert(%s_spec().len() != %s_spec().len());" % (a, b))
+            else:
+                k = next((k for k in range(len(ab)) if ab[k] != bb[k]), None)
+                if k is not None:
+                    hints.append("    assert(%s_spec()[%d] != %s_spec()[%d]);" % (a, k, b, k))
+    out = "// generated on this run from the %d byte-string constants extracted from /repo\n" % len(vals)
+    out += "pub proof fn c05_all_tags_pairwise_distinct()\n    ensures\n" + "\n".join(ens) + "\n{\n" + "\n".join(hints) + "\n}\n"
+    return out, len(vals)
+
+
+def assemble(unit_name, specs, tags, view, props_files, workdir, prelude_files=None, extra_prelude="", gen_props=None):
     """returns (path, layout) where layout maps generated line ranges to (section, items)"""
     os.makedirs(workdir, exist_ok=True)
     ex_rs = os.path.join(workdir, unit_name + ".extracted.rs")
@@ -122,13 +147,19 @@ def assemble(unit_name, specs, tags, view, props_files, workdir, prelude_files=N
     props_off = {}
     pr_head = "pub mod props {\nuse vstd::prelude::*;\nuse vstd::arithmetic::div_mod::*;\nuse vstd::arithmetic::mul::*;\nuse super::prelude::*;\nuse super::extracted::*;\nbroadcast use super::prelude::base_axioms;\n"
     body += pr_head
+    props_files = list(props_files)
+    if gen_props == "const_distinct":
+        txt, n = gen_const_distinct(ex_text)
+        gp = os.path.join(workdir, unit_name + ".generated_props.rs")
+        open(gp, "w").write(txt)
+        props_files.append(gp)
     for pf in props_files:
         props_off[pf] = body.count("\n")
         body += open(pf).read() + "\n"
     body += "} // mod props\n} // verus!\nfn main() {}\n"
     path = os.path.join(workdir, unit_name + ".rs")
     open(path, "w").write(body)
-    layout = {"extracted_offset": ex_off, "map": m, "props_offsets": props_off, "prelude_lines": head.count("\n")}
+    layout = {"extracted_offset": ex_off, "map": m, "props_offsets": props_off, "prelude_lines": head.count("\n"), "props_files": props_files}
     return path, layout
 
 
